@@ -2,23 +2,71 @@
 
 
 def classify(case):
+    """the recorded finding: checkChangeConflictExclusiveKinds(st, <new exclusive kind>, ignore) answers `no conflict`
+    although a change is in progress, when every in-progress change that is not the ignored one is a refresh-snap /
+    revert-snap change that is not a snapd downgrade. Only direct `excl` queries of exactly that class are keyed."""
+    i = case.get("input") or {}
+    q = i.get("query") or {}
+    if q.get("q") != "excl":
+        return None
+    busy = []
+    for n, ch in enumerate(i.get("changes") or [], 1):
+        ready = [t.get("ready", False) for t in ch.get("tasks") or []]
+        if ch.get("snapd"):
+            ready.append(ch.get("snapd_ready", False))
+        if all(ready) or n == q.get("ignore"):
+            continue
+        busy.append(ch)
+    if busy and all(c["kind"] in ("refresh-snap", "revert-snap") and c.get("snapd", 0) not in (1, 3) for c in busy):
+        return "new-exclusive-vs-refresh"
     return None
 
 
 SPEC = dict(
     prop="C14",
     disabled="under construction",
+    # only main.go + conflictkinds.go are compiled, so another builder's half-written translator cannot break this one
     gens=[dict(name="ConflictKinds", cmd=["go", "run", "-C", "translators", "main.go", "conflictkinds.go", "conflictkinds"],
                what="case literals and clause shapes of checkChangeConflictExclusiveKinds and isIrrelevantChange")],
     drivers=[
         dict(name="direct", kind="test", pkg="./overlord/snapstate", run="TestVerifC14Direct",
-             n=dict(quick=300, thorough=5000), timeout=dict(quick=300, thorough=1500),
+             n=dict(quick=200, thorough=4000), timeout=dict(quick=300, thorough=1500),
+             ev=dict(requires=["V.lib.Bytes", "V.models.Conflict"], case_type="Conflict.case",
+                     mismatch="Conflict.mismatch", monitor="Conflict.monitor_fail")),
+        dict(name="history", kind="test", pkg="./overlord/snapstate", run="TestSnapManager", gocheck="verifC14Suite",
+             n=dict(quick=60, thorough=1500), timeout=dict(quick=300, thorough=1500),
              ev=dict(requires=["V.lib.Bytes", "V.models.Conflict"], case_type="Conflict.case",
                      mismatch="Conflict.mismatch", monitor="Conflict.monitor_fail")),
     ],
     classify=classify,
-    rule="",
-    exhaustive=dict(quick=True, thorough=True),
-    trusted_base=[],
-    assumptions=[],
+    rule=("direct: one synthetic change in a fresh state, EVERY combination of kind (the 7 special-cased exclusive kinds, the 2 exempt "
+          "kinds, install-snap, remove-snap, auto-refresh) x task shape (no task / affected snap via snap-setup, via snap-setup-task, "
+          "via a by-kind function, none / Done and not Done tasks mixed) x snapd prepare-snap task (none, lower, higher, empty "
+          "version, other snap) x ignored change id (none, this change, unknown id) x query (CheckChangeConflictMany on several snap "
+          "sets, checkChangeConflictExclusiveKinds for a new exclusive change, checkChangeConflictIgnoringOneChange with nil / equal "
+          "/ modified SnapState), one query per case (quick tier: a covering subset of the queries); plus random states of 0-4 such "
+          "changes. history: through the public API with the suite's fake store and backend: every ordered pair of requests among "
+          "Remove/Disable/Enable/Revert/Switch/Update/Install on 4 snaps (quick: all same-snap pairs and a sample of the others), "
+          "repeated after the first change made partial progress and after it finished; plus random sequences of 4-14 requests and "
+          "progress events (task Done, task back to Do, finish change). Non-trivial = at least one change present (direct) / a "
+          "rejected and two accepted requests (history)."),
+    exhaustive=dict(quick=False, thorough=True),
+    trusted_base=[
+        "translators/conflictkinds.go (go/ast): kinds per clause shape of checkChangeConflictExclusiveKinds / isIrrelevantChange; dies if a clause has another shape",
+        "hand-written model coq/models/Conflict.v of overlord/snapstate/conflict.go, tied by the differential runs "
+        "(harness/overlay/overlord/snapstate/zz_verif_c14_test.go, zz_verif_c14_api_test.go)",
+        "changeIsSnapdDowngrade (version comparison, reading the current snapd info) is an attribute of the modelled change, validated by the direct driver on four version situations",
+        "in the history driver handlers never run: progress is made by setting task statuses; the suite's fakeStore / fakeSnappyBackend stand for the store and the system",
+    ],
+    assumptions=[
+        "PARTIAL: `a request that must run exclusively is refused while any other change is in progress` is proved only outside the "
+        "recorded loophole (in-progress refresh-snap / revert-snap change that is not a snapd downgrade): KNOWN FINDING new-exclusive-vs-refresh",
+        "the per-snap invariant is about requests that go through the conflict check and whose tasks affect only snaps they checked (req_wf); "
+        "call sites that create tasks without calling CheckChangeConflict* are outside the model (which API calls the check is tied by the "
+        "history driver for Remove/Disable/Enable/Revert/Switch/Update/Install only; ifacestate.Connect/Disconnect, aliases, snapshots, "
+        "quota and service requests are not exercised)",
+        "a finished change is final: no progress events or tasks are added to a change whose tasks are all ready (Change.IsReady is sticky in the code)",
+        "a change without tasks counts as ready (Change.Status() is Hold); Change.IsReady() is false for it but it has no task to conflict with",
+        "which conflicting change the error names depends on map iteration order and is not compared; only conflict / no conflict is",
+    ],
 )
